@@ -139,6 +139,10 @@ def basis_spline(  # pylint: disable=dangerous-default-value  # always replaced 
                 x = numpy.where(locs, x, numpy.nan)
         else:
             knots_x = x
+    elif extrapolation is SplineExtrapolation.EXTEND:
+        # Knots are selected from the data inside the boundary knots (as in R);
+        # otherwise the padded knot vector is not non-decreasing.
+        knots_x = x[(x >= lower_bound) & (x <= upper_bound)]
     else:
         knots_x = x
 
